@@ -78,6 +78,13 @@ CLAIMED = {
         'load_network (twice on the same object, and from a JSON file), to_complex (radians/degrees, twice), generate_component / undictify_circuit, serialize/deserialize/dump/load '
         'in JSON and YAML; results compared with the specification and every argument snapshot compared before/after.',
    ref='DESIGN.md §6 C17', technique='TLA+ spec + TLC exhaustive enumeration; spec->code scenario replay with argument snapshots'),
+ 'C19': dict(
+   text='Acceptance is decided by validity predicates of the TLA+ specification (ValidNet, ValidCircuit, ValidComp, ValidLoad, ValidNetDoc, ValidCircDoc, known waveform / '
+        'identifier) evaluated by TLC on every enumerated description: networks and circuits with every duplicate-id pattern, unused reference, 0-2 ground components at every '
+        'position; every component constructor with each sign-checked parameter in {-1, 0, 2} and unknown wave types; load elements; network / circuit description documents '
+        'with unknown type, each missing key, wrong value keys, negative values at every position; declarative schematic lists; queries with known / unknown identifiers on all '
+        'six solution kinds.  Replay observes "raised" vs "returned" and that accepted descriptions are stored unaltered.',
+   ref='DESIGN.md §6 C19', technique='TLA+ validity predicates + TLC exhaustive fault enumeration; spec->code scenario replay'),
 }
 
 PENDING_REASON = 'check not built yet in this round (planned: TLA+ model + conformance replay, see DESIGN.md §6); no claim is made until it exists'
